@@ -861,6 +861,13 @@ class Interp:
 
     def eval_SetComp(self, e):
         r = self.B.comprehension(self, e.elt, e.generators, "list")
+        if isinstance(r, list) and any(is_z3(x) for x in r):
+            # a set of (symbolic) integers: duplicates are removed by deciding the equalities (the path branches)
+            out = []
+            for x in r:
+                if not any((x is y) or self.decide(self.B.equal(self, x, y)) for y in out):
+                    out.append(x)
+            return SymIntSet(out)
         if isinstance(r, list):
             return set(self.B.hashable(x) for x in r)
         raise Unsupported("symbolic set comprehension")
